@@ -42,7 +42,8 @@ theorem sameMultiset_refl (a : List Str) : sameMultiset a a = true :=
   (removeAll_perm a a).mpr (List.Perm.refl _)
 
 /-- non-vacuity: renaming + merging + folding in one text -/
-example : holdsOn [] (model "License: a\nLicense: b\n\njunk x\n\njunk y .\n\nLicense:\n\nfree text\n\nmore\n".toList) = true := by
+example : (let t := "License: a\nLicense: b\n\njunk x\n\njunk y .\n\nLicense:\n\nfree text\n\nmore\n".toList
+    holdsOn t (model t)) = true := by
   decide +kernel
 
 end Props.C11
